@@ -60,6 +60,11 @@ impl<R: Read + Seek> ReadBox<&mut R> for MdiaBox {
                 ));
             }
 
+            // Break if size zero BoxHeader, which can result in dead-loop.
+            if s == 0 {
+                break;
+            }
+
             match name {
                 BoxType::MdhdBox => {
                     mdhd = Some(MdhdBox::read_box(reader, s)?);
